@@ -855,7 +855,11 @@ def unit_factor(base_unit, unit):
 k_cli = with_workdir(ape_cli)
 
 
-KINDS = {"direct": k_direct, "unequal": k_unequal, "cli": k_cli, "session": k_session, "api": k_api}
+from vmon import threads as _threads
+k_threads = _threads.k_evaluation('ape', 'APE evaluation', 'threads:ape-not-reentrant')
+
+
+KINDS = {"threads": k_threads, "direct": k_direct, "unequal": k_unequal, "cli": k_cli, "session": k_session, "api": k_api}
 
 
 def main(run):
@@ -864,6 +868,8 @@ def main(run):
         k_direct(run, run.case("direct", 10**6 + i, **corpus[i]))
     for i in run.mine({"quick": 1500, "thorough": 40000}[run.tier]):
         k_direct(run, run.case("direct", i))
+    for i in run.mine({"quick": 12, "thorough": 200}[run.tier]):
+        k_threads(run, run.case("threads", i))
     for i in run.mine({"quick": 100, "thorough": 2000}[run.tier]):
         k_unequal(run, run.case("unequal", i))
     for i in run.mine({"quick": 300, "thorough": 6000}[run.tier]):
@@ -876,7 +882,7 @@ def main(run):
         k_cli(run, run.case("cli", 10**6 + i, real=True))
     for i in run.mine({"quick": 6, "thorough": 60}[run.tier]):
         k_cli(run, run.case("cli", 2 * 10**6 + i, exe=True))
-    run.need("ape() on fresh objects == definition on the documented processing", "L3 runs through the real executable", "session: every evaluation == definition on its own associated pair",
+    run.need("concurrent rounds: APE evaluation", "ape() on fresh objects == definition on the documented processing", "L3 runs through the real executable", "session: every evaluation == definition on its own associated pair",
              "L2 evaluations with and without projection in one session","APE value == definition applied to its own pose pair", "APE: unequal lengths refused",
              "APE unchanged when ref/est swapped", "APE unchanged under a common rigid motion",
              "APE zero when trajectories coincide", "APE: exactly one value per pose",
